@@ -35,6 +35,9 @@ def run(ctx):
     from .. import xmlshape_bind
 
     xmlshape_bind.run_matrix(ctx, "C01")   # spec/XmlShape.tla: field kinds x XML shapes x positions
+    from .. import typing_bind
+
+    typing_bind.run_matrix(ctx, "C01")     # spec/Typing.tla: documented annotation forms x XML types x leaf types
     mf = ctx.pick(1, 2)
     ctx.tlc("MC_RoundTrip", "run.cfg", extra_files={"run.cfg": rt.cfg_text(max_fields=mf, faults=("none",), cfgs="StrictOnly", invariants=VALID_INVS)},
             label=f"MC_RoundTrip valid documents, {mf} field(s)", timeout=3000)
